@@ -13,7 +13,9 @@
 EXTENDS Naturals, Sequences, FiniteSets, TLC
 
 CONSTANTS NPlugins,
-          NoCode      \* TRUE: the application passes no attributes of its own (Deep.start: built-in, environment, plugins)
+          NoCode,     \* TRUE: the application passes no attributes of its own (Deep.start: built-in, environment, plugins)
+          PluginMayBlank \* deviation (the code before the fix): an EMPTY service name provided by a plugin overrides the
+                      \*   name the resource has - the client then identifies itself with service.name = ""
 
 Keys == {"svc", "k1", "k2"}                \* service.name and two ordinary keys
 Schemas == {"", "s1", "s2"}
@@ -44,7 +46,9 @@ Provide(ks, sc, bl, ev, en) ==
     /\ (ev => (Len(srcs) = 0 /\ "svc" \in ks /\ ~bl))
     /\ (en => (Len(srcs) = 0 /\ ks \cap {"k1", "k2"} # {}))
     /\ (Len(srcs) = 0 => sc = "")
-    /\ (bl => ("svc" \in ks /\ Len(srcs) < 2))     \* only the environment or the code can supply an empty name here
+    \* an empty name: from the environment or the code; from a plugin only where the agent itself does the merging
+    \* (NoCode, Deep.start) - in the other configuration the plugin merges are plain Resource.merge calls
+    /\ (bl => ("svc" \in ks /\ (Len(srcs) < 2 \/ NoCode)))
     /\ ((NoCode /\ Len(srcs) = 1) => (ks = {} /\ sc = "" /\ ~bl))
     /\ srcs' = Append(srcs, [keys |-> ks, schema |-> sc, blank |-> bl, emptyVar |-> ev, encoded |-> en])
     /\ UNCHANGED <<pc, acc, blankSvc, fellBack, kept>>
@@ -61,9 +65,12 @@ Merged(r, i) ==
 
 MergeNext ==
     /\ pc \in 1..NSrc
-    /\ LET m == Merged(acc, pc)
-           conflict == MergeSchema(acc.schema, srcs[pc].schema) = "conflict"
-           blankNow == IF conflict \/ "svc" \notin srcs[pc].keys THEN blankSvc ELSE srcs[pc].blank
+    /\ LET conflict == MergeSchema(acc.schema, srcs[pc].schema) = "conflict"
+           \* Deep.start: an empty service name provided by a plugin is no service name - the name we have stays
+           ignored == pc > 2 /\ ~conflict /\ "svc" \in srcs[pc].keys /\ srcs[pc].blank /\ ~PluginMayBlank
+           m0 == Merged(acc, pc)
+           m == IF ignored THEN [m0 EXCEPT !.owner["svc"] = acc.owner["svc"]] ELSE m0
+           blankNow == IF conflict \/ "svc" \notin srcs[pc].keys \/ ignored THEN blankSvc ELSE srcs[pc].blank
            \* Resource.create: after environment and code, a missing OR EMPTY service name gets the fallback
            needFb == pc = 2 /\ (m.owner["svc"] = Unset \/ blankNow)
        IN /\ acc' = IF needFb THEN [m EXCEPT !.owner["svc"] = Builtin] ELSE m
@@ -84,9 +91,12 @@ Done == pc = NSrc + 1
 ServiceNameAlways == Done => acc.owner["svc"] # Unset
 (* after Resource.create (environment and code) the service name is never an empty string *)
 ServiceNameNotBlankAfterCreate == pc = 3 => ~blankSvc
-(* later sources override earlier ones key by key (a source refused for its schema contributes nothing) *)
+(* ... and the identity the client sends never carries an empty one, whoever provided it *)
+ServiceNameNeverBlank == Done => ~blankSvc
+(* later sources override earlier ones key by key (a source refused for its schema contributes nothing, and neither
+   does a plugin's empty service name) *)
 LaterWins == Done => \A k \in Keys :
-    LET givers == {i \in 1..NSrc : k \in srcs[i].keys /\ i \notin kept}
+    LET givers == {i \in 1..NSrc : k \in srcs[i].keys /\ i \notin kept /\ ~(k = "svc" /\ i > 2 /\ srcs[i].blank)}
         last == CHOOSE i \in givers : \A j \in givers : j <= i
     IN IF givers = {} THEN acc.owner[k] \in {Unset, Builtin}
        ELSE \/ acc.owner[k] = last
